@@ -10,8 +10,27 @@ from pyvc.api import *
 from props.prelude import *
 
 CLAIM = "other"
-EXPLANATION = ""
-ASSUMPTIONS = []
+EXPLANATION = ("T1 proves, relative to a trusted hyper-h2 contract and for every value of the open-stream count, the peer's limit and the "
+               "provisional limit: Http2Client._handle_event rewrites an event's stream id to the upstream id of its own client stream, "
+               "allocates a new upstream id only while open < limit and extends both maps consistently (bijection invariant), otherwise "
+               "appends the event to its stream's waiting list and does nothing else; everything the HTTP/2 engine reports is translated "
+               "back to the client stream it belongs to, order kept; freed capacity resumes the oldest waiting stream first, replays each "
+               "stream's events once, in order, under one new id, and stops only when capacity is exhausted or nobody waits. "
+               "Http2Connection/Http2Server/Http2Client.handle_h2_event: every report carries the h2 event's stream id, per-stream state is "
+               "touched for that id only, DATA before response headers / unexpected or malformed HEADERS are connection errors that reach "
+               "every open stream once. HttpLayer.event_to_child/_handle_event/make_stream: ReceiveHttp goes to the stream of its id only "
+               "(unknown ids are dropped), SendHttp to the handler of its connection only, completions return to the issuing stream, new "
+               "request headers create exactly one stream. The proofs use representative stream ids and a bounded number of waiting "
+               "streams/events; frame-level interleavings, segmentation and the real hyper-h2 state machines are covered bounded in T2 "
+               "(two plain hyper-h2 peers around the real HttpLayer).")
+ASSUMPTIONS = [
+    "hyper-h2 (h2.connection.H2Connection / BufferedH2Connection) is trusted: open_outbound_streams counts our open streams, remote_settings.max_concurrent_streams is the peer's current limit, get_next_available_stream_id() is fresh and increasing, receive_data reports each frame as an event with the right stream id",
+    "T1 uses representative ids (client streams 5, 9 open as 1, 3; 21 and 17 waiting, 21 first; 13 new): the code uses ids only as dictionary keys",
+    "T1 bounds: <= 2 waiting streams with <= 2 events each; Http2Client._handle_event2 (the h2 I/O) is abstracted to: logs its event, yields scripted commands, changes the open-stream count (+1 on request headers, arbitrary otherwise)",
+    "queue invariant (streams wait only while open >= limit) is assumed on entry and proved on exit of every call",
+    "BufferedH2Connection's flow-control buffering is not exercised (T2 bodies are small); h2 PUSH is disabled by mitmproxy",
+    "T2 observes the order in which requests are handed to the upstream connection with a spy on Http2Client._handle_event (hook completion order decides it, not frame order)",
+]
 
 
 M2 = "mitmproxy.proxy.layers.http._http2"
@@ -243,7 +262,7 @@ def s_h2c_event(vc):
     vc.ensure("resume.nothing_lost_or_duplicated", len(replayed) == total and [kk for kk, _ in queue_now] == [sid for sid, _ in queued[popped:]])
     # opened in arrival order: the ids handed out to resumed streams increase in queue order (oldest waiting stream first)
     new_ids = [conc(d_get(vc, layer.our_stream_id, sid)) for sid, _ in queued[:popped]]
-    first_pos = [min(i for i, r in enumerate(replayed) if any(r[0] is e_ for e_ in evs)) for sid, evs in queued[:popped]]
+    first_pos = [min([i for i, r in enumerate(replayed) if any(r[0] is e_ for e_ in evs)] or [-1]) for sid, evs in queued[:popped]]
     vc.ensure("resume.opened_in_arrival_order", all(x is not None for x in new_ids) and new_ids == sorted(new_ids) and first_pos == sorted(first_pos))
     if queue_now:
         vc.ensure("resume.stops_only_without_capacity", Not(stub.open_outbound_streams < (10 if provisional == 10 else stub.remote_settings.max_concurrent_streams)))
@@ -1010,8 +1029,8 @@ def bounded(tier, seed):
             if sum(len(CLIENT_SEQS[s]) for s in seqs) <= 8:
                 combos.append(seqs)
     rnd.shuffle(combos)
-    budget = 1200 if tier == "quick" else 25000
-    per_combo = 3 if tier == "quick" else 12
+    budget = 2400 if tier == "quick" else 40000
+    per_combo = 10 if tier == "quick" else 200
     for seqs in combos:
         ils = list(itertools.islice(interleavings([list(CLIENT_SEQS[s]) for s in seqs]), 400))
         rnd.shuffle(ils)
